@@ -339,7 +339,23 @@ def r3(repo, chk):
                 chk.ob("R3", f"{name}: the push-stream body is handed on without adding the same bytes twice", ok, "", fn.loc(r))
 
 
+def r4_end_flags(repo, chk):
+    """which end-of-stream flag gates what: the content-length comparison of a DATA frame runs for the frame that ends
+    the stream (the handler's own `stream_ended` argument), not for every frame parsed after the FIN became known; and a
+    WebTransport stream header with nothing behind it still reports the end of the stream"""
+    hp = Fn(repo, H3 + "_handle_request_or_push_frame")
+    data = natom("frame_type == FrameType.DATA")
+    ccl = [c for c in hp.calls(name="self._check_content_length") if data in hp.guard_atoms(c) + hp.lexical_guards(c, expand=False)]
+    ok = len(ccl) == 1 and [a for a in hp.lexical_guards(ccl[0], expand=False) if a != data] == [("stream_ended", True)]
+    chk.ob("R4", "_handle_request_or_push_frame: the content-length comparison of a DATA frame is made for the frame that ends the stream (argument stream_ended)", ok, "gated on stream.receiving_ended the comparison runs for every DATA frame parsed after the FIN is known: a body in two DATA frames delivered together with the FIN is refused, the same bytes delivered separately are accepted", hp.loc(hp.node))
+    rr = Fn(repo, H3 + "_receive_request_or_push_data")
+    wt = [c for c in rr.calls(name="WebTransportStreamDataReceived") if norm(get_kw(c, "data")) == "frame_data"]
+    ok = len(wt) == 1 and any(a[0] in ("(frame_data or stream_ended)", "(stream_ended or frame_data)") and a[1] for a in rr.lexical_guards(wt[0], expand=False) + rr.guard_atoms(wt[0]))
+    chk.ob("R4", "_receive_request_or_push_data: the delivery that completes a WebTransport stream header reports payload or end-of-stream", ok, "an empty bidirectional WebTransport stream whose FIN arrives with the header produces no event at all; with the FIN in a delivery of its own it does", rr.loc(rr.node))
+
+
 def r4(repo, chk):
+    r4_end_flags(repo, chk)
     rr = Fn(repo, H3 + "_receive_request_or_push_data")
     cs = [norm(v) for st, t, v in rr.assigns(chain="chunk_size")]
     ok = cs == ["min(stream.frame_size, buf.capacity - consumed)"]
